@@ -710,9 +710,9 @@ Module Witness.
   Definition zone_example : zone :=
     ins (zone_new example_com (Some the_soa)) sub_example_com RT_NS (RD_Name ns_sub_example_com).
   Definition zs : zones := zones_insert [] zone_example.
-  (* the same zone where big.example.com has a TXT record of 65536 octets *)
-  Definition zs_big : zones :=
-    zones_insert [] (ins zone_example big_example_com RT_TXT (RD_Octets (doubled 16 [120]))).
+  (* the same zone where big.example.com has a TXT record of the octets [os] *)
+  Definition zs_big (os : list byte) : zones :=
+    zones_insert [] (ins zone_example big_example_com RT_TXT (RD_Octets os)).
   Definition cget : dname -> N -> list rr := fun _ _ => [].
 
   Definition question_for (n : dname) (t : N) : question := {| q_name := n; q_type := t; q_class := RC_IN |}.
@@ -720,11 +720,6 @@ Module Witness.
     match encode (from_question 7 (question_for n t)) with Ok bs => bs | _ => [] end.
 
   Definition big_query : list byte := query_bytes big_example_com RT_TXT.
-  Definition big_dropped : bool :=
-    match handle_raw_message true (fun _ => resolve_authoritative_only zs_big cget) big_query with
-    | Ok (Some r) => match encode r with Err _ => true | _ => false end
-    | _ => false
-    end.
 End Witness.
 
 (* ---- the known finding F12 is real in the model: the reply to `www.sub.example.com A` has AA set
@@ -763,12 +758,40 @@ Proof.
     end.
 Qed.
 
-(* ---- the premise `encode reply = Ok _` of the framing theorems can fail: the reply to
-   `big.example.com TXT` is built, but its RDATA has 65536 octets and to_octets refuses it
-   (the listen loops then log the error and send nothing: known finding) ---- *)
-Lemma big_dropped_true : Witness.big_dropped = true.
-Proof. vm_compute. reflexivity. Qed.
+(* ---- the premise `encode reply = Ok _` of the framing theorems can fail: RDATA of 65536 octets
+   or more makes to_octets refuse the record ... ---- *)
+Lemma encode_rr_too_large r b os :
+  rr_data r = RD_Octets os -> 65536 <= llen os -> exists e, encode_rr r b = Err e.
+Proof.
+  intros Hd Hl. unfold encode_rr. cbv zeta. rewrite Hd. cbn [encode_rdata].
+  match goal with |- exists e, (if ?c then _ else _) = _ => assert (Hc : c = false) end.
+  { apply N.ltb_ge. unfold write_octets, write_u16, write_u32, write_octets. cbn [wb_len].
+    change (llen (u16_bytes 0)) with 2. lia. }
+  rewrite Hc. eauto.
+Qed.
 
+Lemma encode_too_large m r rest os :
+  m_answers m = r :: rest -> rr_data r = RD_Octets os -> 65536 <= llen os -> exists e, encode m = Err e.
+Proof.
+  intros Ha Hd Hl. unfold encode, usize_to_u16.
+  repeat match goal with
+         | |- exists e, bind (if ?c then _ else _) _ = _ => destruct c; cbn [bind]; [|eauto]
+         end.
+  cbv zeta. rewrite Ha. cbn [encode_rrs].
+  match goal with |- context[encode_rr r ?b] => destruct (encode_rr_too_large r b os Hd Hl) as (e & He); rewrite He end.
+  cbn [bind]. eauto.
+Qed.
+
+Lemma llen_doubled k : forall l, llen (Witness.doubled k l) = 2 ^ N.of_nat k * llen l.
+Proof.
+  induction k as [|k IH]; intro l; cbn [Witness.doubled].
+  - change (N.of_nat 0) with 0. rewrite N.pow_0_r. lia.
+  - rewrite IH. unfold llen at 1. rewrite app_length, Nat2N.inj_add. fold (llen l).
+    rewrite Nat2N.inj_succ, N.pow_succ_r'. lia.
+Qed.
+
+(* ... the reply to `big.example.com TXT` is built, carries such a record, and is dropped by both
+   listen loops (known finding) *)
 Theorem unserialisable_reply_witness :
   exists zs cget bs r e,
     handle_raw_message true (fun _ => resolve_authoritative_only zs cget) bs = Ok (Some r)
@@ -776,13 +799,26 @@ Theorem unserialisable_reply_witness :
     /\ serve_udp true (fun _ => resolve_authoritative_only zs cget) bs = Ok None
     /\ serve_tcp true (fun _ => resolve_authoritative_only zs cget) (u16_bytes (llen bs) ++ bs) EndEof = Ok None.
 Proof.
-  exists Witness.zs_big, Witness.cget, Witness.big_query.
-  pose proof big_dropped_true as H. unfold Witness.big_dropped in H.
-  destruct (handle_raw_message true (fun _ => resolve_authoritative_only Witness.zs_big Witness.cget) Witness.big_query)
-    as [[r|]| | |] eqn:Eh; try discriminate H.
-  destruct (encode r) as [bs|e| |] eqn:Ee; try discriminate H.
-  exists r, e. split; [reflexivity|]. split; [exact Ee|].
-  split; vm_compute; reflexivity.
+  set (os := Witness.doubled 16 [120]).
+  assert (Hos : 65536 <= llen os).
+  { unfold os. rewrite llen_doubled. change (llen [120]) with 1. change (N.of_nat 16) with 16. vm_compute. discriminate. }
+  clearbody os.
+  exists (Witness.zs_big os), Witness.cget, Witness.big_query.
+  assert (Hh : exists r, handle_raw_message true (fun _ => resolve_authoritative_only (Witness.zs_big os) Witness.cget)
+                           Witness.big_query = Ok (Some r)
+                         /\ exists a rest, m_answers r = a :: rest /\ rr_data a = RD_Octets os).
+  { eexists. split; [vm_compute; reflexivity|]. cbn [m_answers]. do 2 eexists. split; reflexivity. }
+  destruct Hh as (r & Hr & a & rest & Ha & Hd).
+  destruct (encode_too_large r a rest os Ha Hd Hos) as (e & He).
+  exists r, e. split; [exact Hr|]. split; [exact He|].
+  split.
+  - unfold serve_udp, udp_reply_message.
+    replace (firstn (N.to_nat UDP_MAX) Witness.big_query) with Witness.big_query by (vm_compute; reflexivity).
+    rewrite Hr. cbn [bind frame_with]. rewrite He. reflexivity.
+  - unfold serve_tcp, tcp_reply_message.
+    replace (read_tcp_bytes (u16_bytes (llen Witness.big_query) ++ Witness.big_query) EndEof)
+      with (ReadOk Witness.big_query) by (vm_compute; reflexivity).
+    rewrite Hr. cbn [bind frame_with]. rewrite He. reflexivity.
 Qed.
 
 (* ------------------------------------------------------------------ *)
